@@ -223,7 +223,8 @@ def execute(case):
 
 
 ERR = {"join": [14, 15, 16, 25, 27], "sync": [15, 16, 22, 25, 27], "heartbeat": [15, 16, 22, 25, 27],
-       "offset_commit": [14, 15, 16, 7, 22, 25, 27], "offset_fetch": [14, 16], "find_coordinator": [15],
+       # 12 OFFSET_METADATA_TOO_LARGE: a commit refused for good (handed to the application, the consumer goes on)
+       "offset_commit": [14, 15, 16, 7, 22, 25, 27, 12], "offset_fetch": [14, 16], "find_coordinator": [15],
        "fetch": [6, 3, 78, 9], "metadata": [5]}     # 78 OFFSET_NOT_AVAILABLE, 9 REPLICA_NOT_AVAILABLE: retriable
 
 
